@@ -318,6 +318,9 @@ def eval_points(ctx, text, symbolize=False, verbose=False):
 
 def do_replay(ctx, path):
     text = open(path).read()
+    if "abs-geom" in text:
+        from .. import absreplay
+        return absreplay.replay(ctx, path)            # a history of vlib/cmdops.py: re-judged by `sfmodel abs`
     if not POINT_RE.search(text):
         print(text)
         print("replay: this file names a theorem / correspondence stream, there is no point to run")
@@ -471,6 +474,12 @@ def run(ctx):
         ctx.notes["model_disagreement_digest"] = dict(sorted(dis_digest.items())[:400])
     for r in results[:2]:
         ctx.sample({"combo": "/".join(r["combo"]), "points": r["points"], "facts": r["facts"][:400]})
+
+    # ---- 4. commands as operations of read/write histories (vlib/cmdops.py): "queries leave position and audio unchanged" where only
+    #         the NEXT write / read shows it (the descriptor and last_op are not in the digest)
+    from .. import cmdops
+    if cmdops.run(ctx, "C17", cmdops.formats_for(ctx), ctx.tier == "quick"):
+        found_input = True
 
     if failed and not found_input:
         ctx.violation("lean-stage", "theorem(s) no longer check: %s\nno failing input found by the complete sf_command grid\n%s"
